@@ -2,7 +2,7 @@
 import json, os
 from vlib.core import *
 
-RULESETS = {"C16": {"N1", "N2", "N3", "N4", "PANIC"}, "C09": {"D1", "D2", "D3", "D4", "D5", "D6", "PANIC"}, "C10": {"E2", "E3", "PANIC"}, "C13": {"Q2", "PANIC"}, "C08": {"K2", "PANIC"}}
+RULESETS = {"C16": {"N1", "N2", "N3", "N4", "PANIC"}, "C09": {"D1", "D2", "D3", "D4", "D5", "D6", "PANIC"}, "C10": {"E2", "E3", "K2", "PANIC"}, "C13": {"Q2", "PANIC"}, "C08": {"K2", "PANIC"}}
 
 
 def neigh_traces(tier, sd, tag, builds=(None,)):
